@@ -11,6 +11,7 @@ import (
 	"io"
 	"log"
 	"os"
+	"sort"
 	"strings"
 	"time"
 
@@ -211,6 +212,30 @@ func enumerate(quick bool, emit func(scenario)) {
 				emit(scenario{Family: "H:captured-lazy-list", Src: "let big=numbers(n-10).map(e->e+1).eval();" + app(t.tmpl, "numbers(n).map(x->slow(x)+big.size())"), N: n, W: w})
 			}
 		}
+		// H2: the SAME lazy list iterated by two goroutines at once — by both operands of a merge, and by two
+		// workers of a parallel mapper through a consumer that does not materialise it — for every stage kind
+		for _, stg := range stages {
+			if stg.name == "fsm" || stg.name == "merge" {
+				continue
+			}
+			m := "let m=" + app(stg.tmpl, "numbers(n-9)") + ";"
+			emit(scenario{Family: "H2:shared-lazy-list", Src: m + "m.merge(m,(a,b)->a<b).string()", N: 12, W: w, RefKind: "shared-merge"})
+			for _, cons := range []string{"m.sum()", "m.reduce((p,q)->p*31+q)", "m.string().len()", "m.indexWhere(e->e<0)"} {
+				emit(scenario{Family: "H2:shared-lazy-list", Src: m + "numbers(n).map(x->slow(x)+(if x>11 then " + cons + " else 0)).sum()", N: 14, W: w})
+			}
+		}
+		// A2: a stage without closure (top, skip, +) between a stack-using stage and the parallel stage
+		for _, pre := range pres[1:] {
+			if pre.name == "fsm" || pre.heavy {
+				continue
+			}
+			for _, mid := range []string{"%s.top(13)", "%s.skip(0)", "(%s+[])", "%s.top(20).skip(0)"} {
+				for _, par := range []string{"map", "accept"} {
+					emit(scenario{Family: "A2:pre-mid-par", Src: app(terminals[1].tmpl, app(parStage(par, -1), app(mid, app(pre.tmpl, src)))), N: pre.n13, W: w})
+				}
+			}
+			emit(scenario{Family: "A2:pre-mid-merge", Src: app(terminals[2].tmpl, app("%s.merge([3,5,1000].number((i,v)->v+i),(a,b)->a<b)", app("%s.top(20)", app(pre.tmpl, "numbers(n)")))), N: 3, W: w})
+		}
 		// G: two nested parallel stages
 		if !quick {
 			for _, t := range []terminal{terminals[0], terminals[1], terminals[3]} {
@@ -337,6 +362,54 @@ func (r *runner) reference(sc scenario) (string, error) {
 			return o.Canon
 		})
 		return res.Obs, nil
+	case sc.RefKind == "shared-merge":
+		// let m=…; m.merge(m,less).string(): force m once, merge the two copies with the textbook merge
+		i := strings.Index(sc.Src, ";m.merge(")
+		mSrc := strings.TrimPrefix(sc.Src[:i], "let m=")
+		f, err := r.generate(mSrc+".eval()", "n")
+		if err != nil {
+			return "", err
+		}
+		var xs []int64
+		failed := false
+		vsched.RunDefault(func() string {
+			v, err := f.Eval(value.Int(sc.N))
+			if err != nil {
+				failed = true
+				return ""
+			}
+			sl, err := v.(*value.List).ToSlice(funcGen.NewEmptyStack[value.Value]())
+			if err != nil {
+				failed = true
+				return ""
+			}
+			for _, e := range sl {
+				if iv, ok := e.(value.Int); ok {
+					xs = append(xs, int64(iv))
+				} else {
+					failed = true
+				}
+			}
+			return ""
+		})
+		if failed {
+			return "ERR", nil
+		}
+		a, b := append([]int64{}, xs...), append([]int64{}, xs...)
+		var parts []string
+		for len(a) > 0 && len(b) > 0 {
+			if a[0] < b[0] {
+				parts = append(parts, fmt.Sprint(a[0]))
+				a = a[1:]
+			} else {
+				parts = append(parts, fmt.Sprint(b[0]))
+				b = b[1:]
+			}
+		}
+		for _, x := range append(a, b...) {
+			parts = append(parts, fmt.Sprint(x))
+		}
+		return "s\"[" + strings.Join(parts, ", ") + "]\"", nil
 	case strings.HasPrefix(sc.RefKind, "multiUse:"):
 		parts := strings.Split(strings.TrimPrefix(sc.RefKind, "multiUse:"), "|")
 		c1, c2, pre := parts[0], parts[1], parts[2]
@@ -481,7 +554,7 @@ func run(ctx *bex.Ctx) {
 		ctx.Eval()
 		if tf := os.Getenv("C06_TRACE"); tf != "" {
 			if fh, err := os.OpenFile(fmt.Sprintf("%s.%d", tf, ctx.Shard), os.O_APPEND|os.O_CREATE|os.O_WRONLY, 0644); err == nil {
-				fmt.Fprintf(fh, "%8.0fms execs=%-7d states=%-7d threads=%d capped=%v %s n=%d\n", float64(time.Since(t0).Microseconds())/1000, st.Execs, st.States, st.MaxThreads, st.Capped, sc.Src, sc.N)
+				fmt.Fprintf(fh, "%8.0fms execs=%-7d states=%-7d threads=%d capped=%v raceExecs=%d racelines=%d %s n=%d\n", float64(time.Since(t0).Microseconds())/1000, st.Execs, st.States, st.MaxThreads, st.Capped, st.RaceExecs, len(st.RaceLines()), sc.Src, sc.N)
 				fh.Close()
 			}
 		}
@@ -529,12 +602,9 @@ func run(ctx *bex.Ctx) {
 				ctx.Violate("outcome under some schedule differs from the sequential result", rp, ref, obs, finding)
 			}
 		}
-		// oracle 2: data races
-		if t := st.FirstRace(); t != nil {
-			rp := copyMap(repro)
-			rp["schedule"] = t.Choices
-			ctx.Violate("data race on the value stack (happens-before, vector clocks)", rp, "no conflicting accesses unordered by happens-before", t.Race, classifyRace(t.Race))
-		}
+		// oracle 2: data races — every distinct race of the scenario is classified on its own, so that a
+		// known one cannot mask another
+		reportRaces(ctx, &st, repro)
 		// oracle 3: deadlock
 		if t := st.FirstDeadlock(); t != nil {
 			rp := copyMap(repro)
@@ -549,6 +619,27 @@ func run(ctx *bex.Ctx) {
 		}
 	})
 	ctx.SpaceDone("families A (pre x par x post), B (pre x par x terminal), C (par x post x terminal), D (par x terminal x size x failing element), E (merge), F (multiUse), G (nested parallel, thorough); all interleavings per scenario, W=2 (thorough: 2,3)")
+}
+
+func reportRaces(ctx *bex.Ctx, st *vsched.Stats, repro map[string]any) {
+	byFinding := map[string][]string{}
+	sched := map[string][]int{}
+	for line, choices := range st.RaceLines() {
+		f := classifyRace(line)
+		byFinding[f] = append(byFinding[f], line)
+		if old, ok := sched[f]; !ok || len(choices) < len(old) {
+			sched[f] = choices
+		}
+	}
+	for f, lines := range byFinding {
+		sort.Strings(lines)
+		rp := copyMap(repro)
+		rp["schedule"] = sched[f]
+		if len(lines) > 3 {
+			lines = lines[:3]
+		}
+		ctx.Violate("data race (happens-before, vector clocks)", rp, "no conflicting accesses unordered by happens-before", strings.Join(lines, "\n"), f)
+	}
 }
 
 func copyMap(m map[string]any) map[string]any {
@@ -588,7 +679,7 @@ func main() {
 	bex.Main(&bex.Check{
 		ID:    "C06",
 		Level: "model_checking",
-		Rule: "each scenario is a list pipeline source -> stages -> terminal evaluated on the real code under the controlled scheduler; ALL interleavings are explored (stateless DFS with history-key pruning, no preemption bound unless scenarios_capped > 0); evaluations = scenarios, distinct_nontrivial = scenarios that really start library goroutines (more than the main and tokenizer vthreads, or merge/multiUse)",
+		Rule:  "each scenario is a list pipeline source -> stages -> terminal evaluated on the real code under the controlled scheduler; ALL interleavings are explored (stateless DFS with history-key pruning, no preemption bound unless scenarios_capped > 0); evaluations = scenarios, distinct_nontrivial = scenarios that really start library goroutines (more than the main and tokenizer vthreads, or merge/multiUse)",
 		Assumptions: []string{"sequentially consistent interleavings at synchronisation granularity; races on the value stack are decided exactly by vector clocks over the hooked stack accesses (funcGen.stackStorage.set/get, Stack.ToSlice)",
 			"virtual time: only the host function slow() costs time (300us); time.After fires only when nothing else is enabled; no closure call takes 5s of real time",
 			"runtime.NumCPU is the harness' worker count W; W=1 (the library's own sequential fallback) defines the sequential reference for map/accept; merge and multiUse references are computed from separately forced operands"},
